@@ -1042,7 +1042,7 @@ func c06SharedInputs(r *rand.Rand) [][]byte {
 // (2) after a detector registered through Extend panicked and the caller recovered, Extend and
 // Detect still return (a lock taken for the walk is released on every path).
 // The 10 s waits are liveness guards of the harness: correct code needs microseconds.
-func c06Liveness(c *fw.Ctx) {
+func c06Liveness(c *fw.Ctx) (stuck bool) {
 	// (1)
 	extDone := make(chan struct{})
 	rd := &c06GatedReader{b: []byte("{\"type\":\"Feature\",\"k\":[1,2,3]}"), gate: extDone}
@@ -1064,7 +1064,11 @@ func c06Liveness(c *fw.Ctx) {
 	case <-time.After(10 * time.Second):
 		c.Violate("calls-block-each-other", "DetectReader waits for its reader while Extend waits for DetectReader", "Extend did not return within 10 s while a DetectReader call was waiting for data from its reader (the reader delivers only after that Extend has returned): the tree lock is held across the caller's Read", c06Payload{What: "liveness"})
 		rd.force()
-		<-resCh
+		select {
+		case <-resCh:
+		case <-time.After(10 * time.Second):
+			return true
+		}
 	}
 	// (2)
 	mimetype.Extend(func(raw []byte, _ uint32) bool { return raw[0] == 'V' && raw[1] == 'X' }, "application/x-verif-faulty", ".vf") // no length check: panics on inputs shorter than 2 bytes
@@ -1089,8 +1093,10 @@ func c06Liveness(c *fw.Ctx) {
 	case <-done:
 	case <-time.After(10 * time.Second):
 		c.Violate("calls-block-each-other", "Extend after a recovered detector panic", "after a detector registered with Extend panicked inside Detect / DetectReader and the caller recovered, a later Extend + Detect + Lookup did not return within 10 s (a lock taken for the tree walk was not released)", c06Payload{What: "liveness"})
+		return true // every further call into the library would block as well
 	}
 	mimetype.VerifResetTree()
+	return false
 }
 
 type c06GatedReader struct {
@@ -1133,7 +1139,9 @@ func (r *c06GatedReader) Read(p []byte) (int, error) {
 func c06SharedRun(c *fw.Ctx, b fw.Batch) {
 	procs := runtime.GOMAXPROCS(0)
 	if !b.Race {
-		c06Liveness(c)
+		if c06Liveness(c) {
+			return
+		}
 	}
 	// one detection of a text with a single line of more than 1 MiB (limit 0) first: whatever
 	// the pooled readers / parsers are left with must not be shared by two later detections
